@@ -190,6 +190,7 @@ func VerifC07cbor() {
 	verifStub.p1, verifStub.p2 = g1, g2
 	buf := ndBytes("input")
 	ndAssume(len(buf) > 0)
+	verifMapLike(buf)
 	c, err := DecodeClaimsFromCBOR(buf)
 	want := verifWantKind(p, extras)
 	ndAssert("c07-cbor-unregistered-profile-is-error", want != 0 || err != nil)
@@ -368,6 +369,7 @@ func c16lookup(name string) int {
 func c16buf() []byte {
 	b := ndBytes("c16.input")
 	ndAssume(len(b) > 0)
+	verifMapLike(b)
 	return b
 }
 
